@@ -150,11 +150,12 @@ def Writer.write (w : Writer) (tok : Token) : Except WErr Writer :=
       if s.isItem ∧ s.len = undefinedLen then w'.writeImpl tok else .ok w'
     | [] => .ok w
   | .sequenceEnd =>
+    -- the sequence (or encapsulated pixel data) is over: `last_de` is forgotten (fix f2b04a4)
     match w.seqTokens with
     | s :: rest =>
-      let w' := { w with seqTokens := rest }
+      let w' := { w with seqTokens := rest, lastDe := none }
       if ¬ s.isItem ∧ s.len = undefinedLen then w'.writeImpl tok else .ok w'
-    | [] => .ok w
+    | [] => .ok { w with lastDe := none }
   | .elementHeader de => .ok { w with lastDe := some de }
   | .pixelSequenceStart =>
     { w with lastDe := some ⟨Tag.pixelData, .OB, undefinedLen⟩,
